@@ -30,13 +30,17 @@ pub(crate) fn rank_visit_record(index: usize) {
 
 /// Returns the number of queue pops per function index since the last reset.
 pub fn rank_visits() -> [usize; RANK_VISITS_LEN] {
-    let mut visits = [0; RANK_VISITS_LEN];
-    let mut i = 0;
-    while i < RANK_VISITS_LEN {
-        visits[i] = RANK_VISITS[i].load(Ordering::Relaxed);
-        i += 1;
-    }
-    visits
+    // Spelled out (no loop) so that symbolic execution needs no loop bound here.
+    [
+        RANK_VISITS[0].load(Ordering::Relaxed),
+        RANK_VISITS[1].load(Ordering::Relaxed),
+        RANK_VISITS[2].load(Ordering::Relaxed),
+        RANK_VISITS[3].load(Ordering::Relaxed),
+        RANK_VISITS[4].load(Ordering::Relaxed),
+        RANK_VISITS[5].load(Ordering::Relaxed),
+        RANK_VISITS[6].load(Ordering::Relaxed),
+        RANK_VISITS[7].load(Ordering::Relaxed),
+    ]
 }
 
 /// Returns the total number of queue pops since the last reset.
@@ -47,11 +51,14 @@ pub fn rank_visits_total() -> usize {
 /// Resets the queue pop counters.
 pub fn rank_visits_reset() {
     RANK_VISITS_TOTAL.store(0, Ordering::Relaxed);
-    let mut i = 0;
-    while i < RANK_VISITS_LEN {
-        RANK_VISITS[i].store(0, Ordering::Relaxed);
-        i += 1;
-    }
+    RANK_VISITS[0].store(0, Ordering::Relaxed);
+    RANK_VISITS[1].store(0, Ordering::Relaxed);
+    RANK_VISITS[2].store(0, Ordering::Relaxed);
+    RANK_VISITS[3].store(0, Ordering::Relaxed);
+    RANK_VISITS[4].store(0, Ordering::Relaxed);
+    RANK_VISITS[5].store(0, Ordering::Relaxed);
+    RANK_VISITS[6].store(0, Ordering::Relaxed);
+    RANK_VISITS[7].store(0, Ordering::Relaxed);
 }
 
 /// Runs the rank calculation stage of `build()`.
@@ -105,4 +112,11 @@ pub fn fn_graph_parts<F>(
         &fn_graph.graph_structure_rev,
         &fn_graph.edge_counts,
     )
+}
+
+/// Streaming building blocks of `FnGraph` (private functions of the streaming
+/// implementation, re-exported unchanged).
+#[cfg(feature = "async")]
+pub mod streaming {
+    pub use crate::fn_graph::verif_streaming::*;
 }
